@@ -47,9 +47,13 @@ class Bo(object):
 class Obj(object):
     """Symbolic instance of a repository class."""
 
+    _counter = [0]
+
     def __init__(self, cls):
         self.cls = cls
         self.slots = {}
+        Obj._counter[0] += 1
+        self.born = Obj._counter[0]
 
     def __repr__(self):
         return 'Obj(%s,%r)' % (self.cls.name, self.slots)
@@ -150,6 +154,11 @@ class PathLimit(Exception):
     pass
 
 
+class _NeedFork(Exception):
+    """Raised in speculative (merge) mode when a new decision would be needed."""
+    pass
+
+
 # ------------------------------------------------------------------- expression helpers
 def lit(n):
     if isinstance(n, bool):
@@ -225,6 +234,8 @@ def mk_cmp(op, a, b):
         r = {'lt': x < y, 'le': x <= y, 'gt': x > y, 'ge': x >= y,
              'eq': x == y, 'ne': x != y}[op]
         return ('true',) if r else ('false',)
+    if a == b:
+        return ('true',) if op in ('le', 'ge', 'eq') else ('false',)
     if op == 'lt':
         return ('lt', a, b)
     if op == 'gt':
@@ -281,6 +292,10 @@ class Interp(object):
         self.trace = []
         self.counter = 0
         self.try_depth_zero_div = 0
+        self.nofork = 0
+        self.defs = {}
+        self.spec_starts = []
+        self.denominators = None
         self.assert_mode = 'assume'   # 'assume': record symbolic asserts; 'fork': model them
 
     # ------------------------------------------------------------ path enumeration
@@ -347,6 +362,8 @@ class Interp(object):
         key = repr(cond)
         if key in self.known:
             return self.known[key]
+        if self.nofork > 0:
+            raise _NeedFork()
         i = len(self.decisions)
         if i >= self.MAX_DECISIONS:
             raise Unsupported('more than %d decisions on one path' % self.MAX_DECISIONS)
@@ -355,6 +372,20 @@ class Interp(object):
         self.known[key] = val
         self.trace.append(('branch', cond, val))
         return val
+
+    def expand(self, e, depth=0):
+        """Substitute let-bound names by their definitions (for structural equality)."""
+        if depth > 6:
+            return e
+        if e[0] == 'var':
+            if e[1] in self.defs:
+                return self.expand(self.defs[e[1]], depth + 1)
+            return e
+        if e[0] in ('add', 'sub', 'mul', 'div', 'min', 'max'):
+            return (e[0], self.expand(e[1], depth + 1), self.expand(e[2], depth + 1))
+        if e[0] in ('neg', 'abs'):
+            return (e[0], self.expand(e[1], depth + 1))
+        return e
 
     def fresh(self, base):
         self.counter += 1
@@ -366,6 +397,7 @@ class Interp(object):
         if isinstance(v, Sc) and not atomic(v.e):
             nm = self.fresh(base)
             self.trace.append(('let', nm, 'S', v.e))
+            self.defs[nm] = v.e
             return Sc(('var', nm))
         if isinstance(v, Bo) and not atomic(v.e):
             nm = self.fresh(base)
@@ -615,7 +647,10 @@ class Interp(object):
             if op == 'div':
                 if eb[0] == 'lit' and eb[1] == 0:
                     raise PyRaise('ZeroDivisionError')
-                if self.try_depth_zero_div > 0:
+                if self.denominators is not None:
+                    if eb not in self.denominators:
+                        self.denominators.append(eb)
+                elif self.try_depth_zero_div > 0:
                     if self.decide(('eq', eb, lit(0))):
                         raise PyRaise('ZeroDivisionError')
                 return Sc(('div', ea, eb))
@@ -727,7 +762,12 @@ class Interp(object):
                 return Bo(r if op == 'eq' else mk_not(r))
             if isinstance(b, Bo) and isinstance(a, bool) and op in ('eq', 'ne'):
                 return self.compare(op, b, a)
-            r = mk_cmp(op, to_sc(a), to_sc(b))
+            ea, eb = to_sc(a), to_sc(b)
+            r = mk_cmp(op, ea, eb)
+            if r[0] not in ('true', 'false') and (ea[0] == 'var' or eb[0] == 'var'):
+                xa, xb = self.expand(ea), self.expand(eb)
+                if xa == xb:
+                    r = mk_cmp(op, xa, xb)
             if r[0] == 'true':
                 return True
             if r[0] == 'false':
@@ -753,6 +793,8 @@ class Interp(object):
     def py_eq(self, a, b):
         if isinstance(a, ClsRef) and isinstance(b, ClsRef):
             return a.info is b.info
+        if isinstance(a, (PyType, Builtin)) and isinstance(b, (PyType, Builtin)):
+            return a.name == b.name
         if isinstance(a, (ClsRef, FuncRef, Builtin, Opaque)) or \
                 isinstance(b, (ClsRef, FuncRef, Builtin, Opaque)):
             return a is b
@@ -1020,8 +1062,104 @@ class Frame(object):
 
     # ----------------------------------------------------------------- statements
     def exec_block(self, stmts):
-        for st in stmts:
+        for i, st in enumerate(stmts):
+            if isinstance(st, ast.If) and self.try_merge_return(st, stmts[i + 1:]):
+                return
+            if isinstance(st, ast.Try) and self.try_merge_zero_div(st):
+                return
             self.exec_stmt(st)
+
+    def try_merge_return(self, st, rest):
+        """An `if` whose two continuations both end in `return` of mergeable values,
+        evaluated without forking, becomes one return of `if c then A else B`.
+        (Continuations: the body, and the else-block or the rest of the enclosing block.)"""
+        I = self.I
+        if not _ends_in_return(st.body):
+            return False
+        if st.orelse:
+            if not _ends_in_return(st.orelse):
+                return False
+            other = st.orelse
+        else:
+            if not rest or not _ends_in_return(rest):
+                return False
+            other = rest
+        if not _spec_safe_block(st.body) or not _spec_safe_block(other):
+            return False
+        saved_trace = len(I.trace)
+        saved_counter = I.counter
+        saved_env = dict(self.env)
+        ok0, tv = self._speculate(lambda: I.truth(self.eval(st.test)))
+        if not ok0 or not isinstance(tv, Bo):
+            self._rollback(saved_env, saved_trace, saved_counter)
+            return False
+        key = repr(tv.e if tv.e[0] != 'not' else tv.e[1])
+        if key in I.known:
+            self._rollback(saved_env, saved_trace, saved_counter)
+            return False
+        env0 = dict(self.env)
+        ok1, a = self._speculate(lambda: self.exec_block(st.body), want_return=True)
+        if not ok1:
+            self._rollback(saved_env, saved_trace, saved_counter)
+            return False
+        self.env.clear()
+        self.env.update(env0)
+        ok2, b = self._speculate(lambda: self.exec_block(other), want_return=True)
+        if not ok2:
+            self._rollback(saved_env, saved_trace, saved_counter)
+            return False
+        m = _merge_values(tv.e, a, b, I)
+        if m is None and not (a is None and b is None):
+            self._rollback(saved_env, saved_trace, saved_counter)
+            return False
+        raise _Return(m)
+
+    def _rollback(self, env, trace_len, counter):
+        I = self.I
+        self.env.clear()
+        self.env.update(env)
+        del I.trace[trace_len:]
+        I.counter = counter
+
+    def try_merge_zero_div(self, st):
+        """try: return A  except ZeroDivisionError: return B   ->   if (some evaluated
+        denominator = 0) then B else A, without forking."""
+        I = self.I
+        if len(st.body) != 1 or not isinstance(st.body[0], ast.Return) or \
+                st.body[0].value is None or len(st.handlers) != 1 or st.orelse or \
+                st.finalbody:
+            return False
+        h = st.handlers[0]
+        if _handler_names(h) != ['ZeroDivisionError'] or len(h.body) != 1 or \
+                not isinstance(h.body[0], ast.Return) or h.body[0].value is None:
+            return False
+        saved_trace = len(I.trace)
+        saved_counter = I.counter
+        saved_env = dict(self.env)
+        saved_den = I.denominators
+        I.denominators = []
+        try:
+            ok1, a = self._speculate(lambda: self.eval(st.body[0].value))
+            dens = I.denominators
+        finally:
+            I.denominators = saved_den
+        if not ok1:
+            self._rollback(saved_env, saved_trace, saved_counter)
+            return False
+        if not dens:
+            raise _Return(a)
+        ok2, b = self._speculate(lambda: self.eval(h.body[0].value))
+        if not ok2:
+            self._rollback(saved_env, saved_trace, saved_counter)
+            return False
+        cond = ('false',)
+        for d in dens:
+            cond = mk_or(cond, mk_cmp('eq', d, lit(0)))
+        m = _merge_values(cond, b, a, I)
+        if m is None:
+            self._rollback(saved_env, saved_trace, saved_counter)
+            return False
+        raise _Return(m)
 
     def exec_stmt(self, st):
         I = self.I
@@ -1048,7 +1186,11 @@ class Frame(object):
             self.assign(st.target, r)
             return
         if isinstance(st, ast.If):
-            if I.test(self.eval(st.test)):
+            tv = I.truth(self.eval(st.test))
+            if isinstance(tv, Bo) and _mergeable_block(st.body) and \
+                    _mergeable_block(st.orelse) and self.try_merge_if(st, tv):
+                return
+            if (tv if isinstance(tv, bool) else I.decide(tv.e)):
                 self.exec_block(st.body)
             else:
                 self.exec_block(st.orelse)
@@ -1169,6 +1311,109 @@ class Frame(object):
         if not broke:
             self.exec_block(st.orelse)
 
+    def _speculate(self, thunk, want_return=False):
+        """Run thunk without allowing new decisions; returns (ok, result).  On failure
+        the trace and environment are restored."""
+        I = self.I
+        saved_env = dict(self.env)
+        saved_trace = len(I.trace)
+        saved_counter = I.counter
+        saved_assume = len(I.assumptions)
+        I.nofork += 1
+        I.spec_starts.append(Obj._counter[0])
+        try:
+            r = thunk()
+            return True, r
+        except _Return as rr:
+            if want_return:
+                return True, rr.v
+            self.env.clear()
+            self.env.update(saved_env)
+            del I.trace[saved_trace:]
+            del I.assumptions[saved_assume:]
+            I.counter = saved_counter
+            return False, None
+        except (_NeedFork, PyRaise, _Break, _Continue):
+            self.env.clear()
+            self.env.update(saved_env)
+            del I.trace[saved_trace:]
+            del I.assumptions[saved_assume:]
+            I.counter = saved_counter
+            return False, None
+        finally:
+            I.nofork -= 1
+            I.spec_starts.pop()
+
+    def try_merge_if(self, st, tv):
+        I = self.I
+        key = repr(tv.e if tv.e[0] != 'not' else tv.e[1])
+        if key in I.known:
+            return False
+        base_env = dict(self.env)
+        saved_trace = len(I.trace)
+        saved_counter = I.counter
+        ok1, _ = self._speculate(lambda: self.exec_block(st.body))
+        if not ok1:
+            return False
+        env1 = dict(self.env)
+        self.env.clear()
+        self.env.update(base_env)
+        ok2, _ = self._speculate(lambda: self.exec_block(st.orelse))
+        if not ok2:
+            self.env.clear()
+            self.env.update(base_env)
+            del I.trace[saved_trace:]
+            I.counter = saved_counter
+            return False
+        env2 = dict(self.env)
+        merged = {}
+        for k in set(env1.keys()) | set(env2.keys()):
+            if k in env1 and k in env2:
+                a, b = env1[k], env2[k]
+                if a is b:
+                    merged[k] = a
+                    continue
+                m = _merge_values(tv.e, a, b)
+                if m is None:
+                    self.env.clear()
+                    self.env.update(base_env)
+                    del I.trace[saved_trace:]
+                    I.counter = saved_counter
+                    return False
+                if isinstance(m, (Sc, Bo)):
+                    m = I.name_value(m, k)
+                merged[k] = m
+            else:
+                # defined on one side only: keep it only if never used later; we cannot
+                # know, so refuse to merge
+                self.env.clear()
+                self.env.update(base_env)
+                del I.trace[saved_trace:]
+                I.counter = saved_counter
+                return False
+        self.env.clear()
+        self.env.update(merged)
+        return True
+
+    def try_merge_ifexp(self, e, tv):
+        I = self.I
+        key = repr(tv.e if tv.e[0] != 'not' else tv.e[1])
+        if key in I.known:
+            return None
+        ok1, a = self._speculate(lambda: self.eval(e.body))
+        if not ok1:
+            return None
+        saved_trace = len(I.trace)
+        ok2, b = self._speculate(lambda: self.eval(e.orelse))
+        if not ok2:
+            return None
+        m = _merge_values(tv.e, a, b)
+        if m is None or not isinstance(m, (Sc, Bo)):
+            if m is not None and (m is a):
+                return m
+            return None
+        return m
+
     def assign(self, target, v):
         I = self.I
         if isinstance(target, ast.Name):
@@ -1186,6 +1431,8 @@ class Frame(object):
         if isinstance(target, ast.Attribute):
             o = self.eval(target.value)
             if isinstance(o, Obj):
+                if I.spec_starts and o.born <= I.spec_starts[0]:
+                    raise _NeedFork()
                 if isinstance(v, (Sc, Bo)):
                     v = I.name_value(v, target.attr)
                 o.slots[self.mangle(target.attr)] = v
@@ -1195,6 +1442,8 @@ class Frame(object):
             c = self.eval(target.value)
             i = self.eval(target.slice)
             if isinstance(c, (list, dict)):
+                if I.spec_starts:
+                    raise _NeedFork()
                 if isinstance(v, (Sc, Bo)):
                     v = I.name_value(v, 'item')
                 c[i] = v
@@ -1235,7 +1484,12 @@ class Frame(object):
         if isinstance(e, ast.Compare):
             return self.eval_compare(e)
         if isinstance(e, ast.IfExp):
-            if I.test(self.eval(e.test)):
+            tv = I.truth(self.eval(e.test))
+            if isinstance(tv, Bo):
+                r = self.try_merge_ifexp(e, tv)
+                if r is not None:
+                    return r
+            if (tv if isinstance(tv, bool) else I.decide(tv.e)):
                 return self.eval(e.body)
             return self.eval(e.orelse)
         if isinstance(e, ast.Tuple):
@@ -1413,6 +1667,9 @@ class Frame(object):
                 return getattr(r, n)()
             if n in ('startswith', 'endswith'):
                 return getattr(r, n)(*args)
+        if isinstance(r, list) and self.I.spec_starts and \
+                n in ('append', 'extend', 'insert', 'pop', 'reverse'):
+            raise _NeedFork()
         if isinstance(r, list):
             if n == 'append':
                 v = args[0]
@@ -1493,6 +1750,93 @@ class Frame(object):
             else:
                 self.env[k] = saved[k]
         return out
+
+
+def _mergeable_block(stmts):
+    for st in stmts:
+        if isinstance(st, ast.Pass):
+            continue
+        if isinstance(st, ast.Assign):
+            if all(isinstance(t, ast.Name) for t in st.targets):
+                continue
+            return False
+        if isinstance(st, ast.AugAssign) and isinstance(st.target, ast.Name):
+            continue
+        if isinstance(st, ast.If) and _mergeable_block(st.body) and \
+                _mergeable_block(st.orelse):
+            continue
+        return False
+    return True
+
+
+def _ends_in_return(stmts):
+    return bool(stmts) and isinstance(stmts[-1], ast.Return) and \
+        stmts[-1].value is not None
+
+
+def _spec_safe_block(stmts):
+    """Statements that may be executed speculatively: assignments to local names,
+    nested ifs of the same kind, and a final return."""
+    for st in stmts:
+        if isinstance(st, (ast.Pass, ast.Return)):
+            continue
+        if isinstance(st, ast.Expr) and isinstance(st.value, ast.Constant):
+            continue
+        if isinstance(st, ast.Assign) and all(
+                isinstance(t, (ast.Name, ast.Tuple)) for t in st.targets):
+            continue
+        if isinstance(st, ast.AugAssign) and isinstance(st.target, ast.Name):
+            continue
+        if isinstance(st, ast.If) and _spec_safe_block(st.body) and \
+                _spec_safe_block(st.orelse):
+            continue
+        return False
+    return True
+
+
+def _merge_values(cond, a, b, I=None):
+    """Value of `a if cond else b` without forking, or None when not expressible."""
+    if a is b:
+        return a
+    if isinstance(a, Obj) and isinstance(b, Obj):
+        if a.cls is not b.cls or set(a.slots.keys()) != set(b.slots.keys()):
+            return None
+        o = Obj(a.cls)
+        for k in a.slots:
+            x, y = a.slots[k], b.slots[k]
+            if x is None and y is None:
+                o.slots[k] = None
+                continue
+            m = _merge_values(cond, x, y, I)
+            if m is None:
+                return None
+            if I is not None and isinstance(m, (Sc, Bo)):
+                m = I.name_value(m, k)
+            o.slots[k] = m
+        return o
+    if isinstance(a, bool) and isinstance(b, bool):
+        if a == b:
+            return a
+        return Bo(cond) if a else Bo(mk_not(cond))
+    if (isinstance(a, Bo) or isinstance(a, bool)) and (isinstance(b, Bo) or
+                                                       isinstance(b, bool)):
+        ea, eb = to_bo(a), to_bo(b)
+        return Bo(mk_or(mk_and(cond, ea), mk_and(mk_not(cond), eb)))
+    if (isinstance(a, Sc) or is_num(a)) and (isinstance(b, Sc) or is_num(b)):
+        ea, eb = to_sc(a), to_sc(b)
+        if ea == eb:
+            return a
+        if isinstance(a, int) and isinstance(b, int):
+            return None
+        return Sc(('ite', cond, ea, eb))
+    if a is None and b is None:
+        return None if False else a
+    try:
+        if type(a) == type(b) and not isinstance(a, (Obj, SList, SOpt)) and a == b:
+            return a
+    except Exception:
+        pass
+    return None
 
 
 def _load(target):
